@@ -3160,9 +3160,92 @@ class SchemaValidator:
             if schema is None:
                 continue
 
+            def effective_thread_checkpoint_ref(thread_group, visiting=()):
+                """The checkpoint that everything in the thread group depends on: the thread group's own
+                checkpoint combined with the effective checkpoint of the thread group that encloses it."""
+                thread_group_id = str(thread_group["id"])
+                thread_group_ref = utils.as_namespaced_ref(
+                    schema_id, thread_group["id"], "thread_group"
+                )
+                if thread_group_ref in self._thread_group_checkpoint_references:
+                    return self._thread_group_checkpoint_references[thread_group_ref]
+
+                if thread_group_ref in visiting:
+                    # thread groups that enclose each other -- reported elsewhere
+                    return None
+
+                thread_group_checkpoint_ref = (
+                    self._normalize_ref(thread_group["depends_on"])
+                    if utils.is_template_entity_reference(
+                        thread_group, "depends_on", "checkpoint"
+                    )
+                    else None
+                )
+
+                parent_thread_group_checkpoint_ref = None
+                if utils.is_template_entity_reference(
+                    thread_group, "context", "thread_group"
+                ):
+                    parent_thread_group = self._resolve_global_ref(
+                        thread_group["context"]
+                    )
+                    if parent_thread_group is not None and "id" in parent_thread_group:
+                        parent_thread_group_checkpoint_ref = (
+                            effective_thread_checkpoint_ref(
+                                parent_thread_group, visiting + (thread_group_ref,)
+                            )
+                        )
+
+                if parent_thread_group_checkpoint_ref is None:
+                    if thread_group_checkpoint_ref is None:
+                        return None
+
+                    effective_checkpoint_ref = thread_group_checkpoint_ref
+                elif (
+                    thread_group_checkpoint_ref is None
+                    or thread_group_checkpoint_ref == parent_thread_group_checkpoint_ref
+                ):
+                    effective_checkpoint_ref = parent_thread_group_checkpoint_ref
+                else:
+                    # a psuedo-checkpoint is needed to combine the thread group's checkpoint
+                    # with the parent thread group's checkpoint
+                    psuedo_checkpoint_alias = f"_psuedo-thread-checkpoint"
+                    if schema_id is not None:
+                        psuedo_checkpoint_alias += "-" + schema_id
+                    psuedo_checkpoint_alias += "-" + thread_group_id
+                    if "checkpoints" not in schema:
+                        schema["checkpoints"] = []
+                    schema["checkpoints"].append(
+                        {
+                            "alias": psuedo_checkpoint_alias,
+                            "gate_type": "AND",
+                            "dependencies": [
+                                {"checkpoint": parent_thread_group_checkpoint_ref},
+                                {"checkpoint": thread_group_checkpoint_ref},
+                            ],
+                        }
+                    )
+                    self._generated_checkpoints.append(schema["checkpoints"][-1])
+                    effective_checkpoint_ref = utils.as_namespaced_ref(
+                        schema_id, psuedo_checkpoint_alias, "checkpoint"
+                    )
+                    nested_checkpoint_refs.append(parent_thread_group_checkpoint_ref)
+                    nested_checkpoint_refs.append(thread_group_checkpoint_ref)
+
+                    # bypass validation of psuedo-checkpoints
+                    self._psuedo_checkpoints.append(psuedo_checkpoint_alias)
+
+                self._thread_group_checkpoint_references[
+                    thread_group_ref
+                ] = effective_checkpoint_ref
+                return effective_checkpoint_ref
+
             for thread_group in (
                 schema["thread_groups"] if "thread_groups" in schema else []
             ):
+                if "id" not in thread_group:
+                    continue
+
                 thread_group_id = str(thread_group["id"])
                 thread_group_ref = utils.as_namespaced_ref(
                     schema_id, thread_group["id"], "thread_group"
@@ -3177,73 +3260,20 @@ class SchemaValidator:
                     parent_thread_group = self._resolve_global_ref(
                         thread_group["context"]
                     )
-                    if not utils.is_template_entity_reference(
-                        parent_thread_group, "depends_on", "checkpoint"
-                    ):
-                        continue
-
-                    parent_thread_group_checkpoint_ref = self._normalize_ref(
-                        parent_thread_group["depends_on"]
-                    )
-
-                    parent_thread_group_ref = utils.as_namespaced_ref(
-                        schema_id, parent_thread_group["id"], "thread_group"
-                    )
-                    if parent_thread_group_ref not in self._thread_groups:
-                        self._thread_groups[parent_thread_group_ref] = ThreadGroup(
-                            schema_id
+                    if parent_thread_group is not None and "id" in parent_thread_group:
+                        parent_thread_group_ref = utils.as_namespaced_ref(
+                            schema_id, parent_thread_group["id"], "thread_group"
                         )
+                        if parent_thread_group_ref not in self._thread_groups:
+                            self._thread_groups[parent_thread_group_ref] = ThreadGroup(
+                                schema_id
+                            )
 
-                    self._thread_groups[
-                        parent_thread_group_ref
-                    ].sub_thread_group_ids.append(thread_group_id)
+                        self._thread_groups[
+                            parent_thread_group_ref
+                        ].sub_thread_group_ids.append(thread_group_id)
 
-                    if not utils.is_template_entity_reference(
-                        thread_group, "depends_on", "checkpoint"
-                    ):
-                        self._thread_group_checkpoint_references[
-                            thread_group_ref
-                        ] = parent_thread_group_checkpoint_ref
-                    else:
-                        # a psuedo-checkpoint is needed to combine the thread group's checkpoint
-                        # with the parent thread group's checkpoint
-                        thread_group_checkpoint_ref = self._normalize_ref(
-                            thread_group["depends_on"]
-                        )
-                        psuedo_checkpoint_alias = f"_psuedo-thread-checkpoint"
-                        if schema_id is not None:
-                            psuedo_checkpoint_alias += "-" + schema_id
-                        psuedo_checkpoint_alias += "-" + thread_group_id
-                        schema["checkpoints"].append(
-                            {
-                                "alias": psuedo_checkpoint_alias,
-                                "gate_type": "AND",
-                                "dependencies": [
-                                    {"checkpoint": parent_thread_group_checkpoint_ref},
-                                    {"checkpoint": thread_group_checkpoint_ref},
-                                ],
-                            }
-                        )
-                        self._generated_checkpoints.append(schema["checkpoints"][-1])
-                        psuedo_checkpoint_ref = utils.as_namespaced_ref(
-                            schema_id, psuedo_checkpoint_alias, "checkpoint"
-                        )
-                        self._thread_group_checkpoint_references[
-                            thread_group_ref
-                        ] = psuedo_checkpoint_ref
-                        nested_checkpoint_refs.append(
-                            parent_thread_group_checkpoint_ref
-                        )
-                        nested_checkpoint_refs.append(thread_group_checkpoint_ref)
-
-                        # bypass validation of psuedo-checkpoints
-                        self._psuedo_checkpoints.append(psuedo_checkpoint_alias)
-                elif utils.is_template_entity_reference(
-                    thread_group, "depends_on", "checkpoint"
-                ):
-                    self._thread_group_checkpoint_references[
-                        thread_group_ref
-                    ] = self._normalize_ref(thread_group["depends_on"])
+                effective_thread_checkpoint_ref(thread_group)
 
             for action in schema["actions"] if "actions" in schema else []:
                 if "id" not in action:
@@ -3284,25 +3314,13 @@ class SchemaValidator:
 
                     self._thread_groups[thread_group_ref].action_refs.append(action_ref)
 
-                    if utils.is_template_entity_reference(
-                        thread_group, "depends_on", "checkpoint"
-                    ):
-                        thread_checkpoint_ref = self._normalize_ref(
-                            thread_group["depends_on"]
-                        )
-                    elif (
-                        "context" in thread_group
-                        and thread_group_ref in self._thread_group_checkpoint_references
-                    ):
+                    if thread_group_ref in self._thread_group_checkpoint_references:
                         thread_checkpoint_ref = (
                             self._thread_group_checkpoint_references[thread_group_ref]
                         )
                     else:
                         continue
 
-                    self._thread_group_checkpoint_references[
-                        thread_group_ref
-                    ] = thread_checkpoint_ref
                     self._threaded_action_refs.append(action_ref)
 
                     if not utils.is_template_entity_reference(
